@@ -44,6 +44,17 @@ class Stats(object):
         self.engine_exceptions = collections.Counter()
         self.samples = []
         self.extra = collections.Counter()
+        self.exc_samples = {}
+
+    def engine_exception(self, e, scn):
+        key = "%s@%s" % (e.etype, e.site)
+        self.engine_exceptions[key] += 1
+        if key not in self.exc_samples:
+            hist = []
+            d = getattr(e, "driver", None)
+            if d is not None:
+                hist = [(x["op"], x.get("after")) for x in d.steps[-40:]]
+            self.exc_samples[key] = {"scenario": scn, "error": str(e), "last_ops": hist, "failing_call": [e.call, getattr(e, "args_repr", "")]}
 
     def label(self, *names):
         for n in names:
@@ -67,6 +78,8 @@ class Stats(object):
         self.excluded.update(o.excluded)
         self.engine_exceptions.update(o.engine_exceptions)
         self.extra.update(o.extra)
+        for k, v in o.exc_samples.items():
+            self.exc_samples.setdefault(k, v)
         for s in o.samples:
             self.sample(s, cap=4)
 
@@ -363,6 +376,12 @@ def main(prop, tier):
     total = Stats()
     for s in merged.values():
         total.merge(s)
+    if total.exc_samples:
+        d = os.path.join(ROOT, "out", prop)
+        os.makedirs(d, exist_ok=True)
+        for k, v in total.exc_samples.items():
+            fn = "exc_" + "".join(ch if ch.isalnum() else "_" for ch in k) + ".json"
+            json.dump(v, open(os.path.join(d, fn), "w"), indent=1, default=str)
 
     # 4. report
     for line in known_lines:
